@@ -24,6 +24,7 @@ SETUPS = {
 SETUP_STEPS = {"S_HN": 24, "S_H": 24, "S_2": 36, "S_E": 8, "S_T": 24}
 ALLOC = [["alloc_bytes", 2]]
 ALLOC_FREE = [["alloc_bytes", 2], ["free_last"]]
+ALLOC_ALLOC = [["alloc_bytes", 2], ["alloc_bytes", 3]]
 DEALLOC = [["free_given", 2, 3, 0]]
 DEALLOC_ALLOC = [["free_given", 2, 3, 0], ["alloc_bytes", 4]]
 TOUCH_DEALLOC = [["touch_given", 2, 3], ["free_given", 2, 3, 0]]
@@ -50,6 +51,8 @@ class Q:
         args = {"0": dict(sargs), "1": {}}
         if any(a[0] in ("alloc_bytes", "alloc_aligned") for a in self.p1):
             args["1"]["0"] = list(self.n1)
+            if sum(1 for a in self.p1 if a[0] == "alloc_bytes") > 1:
+                args["1"]["1"] = list(self.n2 or self.n1)
         if any(a[0] == "free_given" for a in self.p1):
             args["1"].update({"0": given[0], "1": given[1]})
         if self.p2 is not None:
@@ -109,6 +112,9 @@ def families():
     qs.append(Q("live_alloc_vs_dealloc_opt_sw3", ["C07"], "thorough", "live", "Optimistic", "S_HN", ALLOC, DEALLOC, [24, 16], 3, 1, n1=(1, 24), role="waiter_after_pop", timeout=2400))
     qs.append(Q("live_alloc_vs_dealloc_pess_sw3", ["C07"], "thorough", "live", "Pessimistic", "S_HN", ALLOC, DEALLOC, [24, 16], 3, 1, n1=(1, 24), role="waiter_after_pop"))
     qs.append(Q("live_alloc_vs_dealloc_opt_sw3_d", ["C07"], "thorough", "live", "Optimistic", "S_HN", ALLOC, DEALLOC, [24, 16], 3, 2, n1=(1, 24)))
+    # an allocation whose unlink CAS loses against a concurrent insertion at the head, followed by one more allocation
+    qs.append(Q("live_allocalloc_vs_dealloc_opt_sw2", ["C07"], "thorough", "live", "Optimistic", "S_HN", ALLOC_ALLOC, DEALLOC, [44, 14], 2, 1, n1=(1, 8), n2=(1, 8),
+                role="abandoned_mark", timeout=3000))
     qs.append(Q("live_alloc_vs_alloc_opt_sw2", ["C07"], "thorough", "live", "Optimistic", "S_2", ALLOC, ALLOC, [24, 24], 2, 1, n1=(1, 16), timeout=2400))
     qs.append(Q("live_bump_vs_toprelease_none_sw3", ["C07"], "quick", "live", "None", "S_E", ALLOC_FREE, DEALLOC_ALLOC, [14, 14], 3, 1, n1=(1, 24)))
     qs.append(Q("live_bump_none_sw2", ["C07"], "thorough", "live", "None", "S_E", ALLOC_FREE, DEALLOC_ALLOC, [14, 14], 2, 1))
